@@ -351,7 +351,7 @@ func checkEpsilonCollision(c *Ctx, classes map[string]rset) {
 						}
 						return true
 					})
-					c.Check("R2.2", fmt.Sprintf("%s: symbols added from %s exclude epsilon", funcKey(np, fd), what), call.Pos(), !set.has(rune(eps)) || guarded,
+					c.Check("R2.2", fmt.Sprintf("%s: symbols added from %s exclude epsilon", trimMod(np.PkgPath)+"."+fd.Name.Name, what), call.Pos(), !set.has(rune(eps)) || guarded,
 						fmt.Sprintf("the set contains U+%04X, which is automata.E (the empty string): the transition added for it is an ε-transition, so the construct can be skipped", eps),
 						"the pattern a.b accepts \"ab\"")
 					return true
